@@ -84,7 +84,17 @@ def build_template(x):
                 a, b = txt.split("/", 1)
                 return {name: {"Fn::Sub": ["${Net}/${Bits}", {"Net": a, "Bits": b}]}}
             return {name: {"Fn::Sub": ["${Net}", {"Net": txt}]}}
-        if x["via"] == "ref_default":
+        if x["via"] == "ref_none":
+            # "nothing supplied" said explicitly: the caller's dict carries the key with None, the Default is the value
+            # (seeded change C17-r5m2 let the raw supplied object override the processed one)
+            params[pname] = {"Type": "String", "Default": txt}
+            extra[pname] = None
+        elif x["via"] == "select_list" and isinstance(txt, str) and "," not in txt:
+            # a CommaDelimitedList supplied as ONE text, the range picked by position
+            params[pname] = {"Type": "CommaDelimitedList", "Default": "192.0.2.1/32"} if x.get("shadowed_default") else {"Type": "CommaDelimitedList"}
+            extra[pname] = "198.51.100.7/32," + txt + ",203.0.113.0/24"
+            return {name: {"Fn::Select": [1, {"Ref": pname}]}}
+        elif x["via"] in ("ref_default", "select_list"):
             params[pname] = {"Type": "String", "Default": txt}
         else:
             params[pname] = {"Type": "String", "Default": "10.9.8.7/32"} if x.get("shadowed_default") else {"Type": "String"}
@@ -703,13 +713,16 @@ def sweep_print6():
                     yield P6, print_case(g, l, ["sweep", "pattern", "masked"])
 
 
+VIAS = ["literal", "literal", "literal", "ref_default", "ref_extra", "ref_extra", "sub_local", "ref_none", "select_list"]
+
+
 def gen_group(rng):
     return rng.choice([None, None, "", "sg-name", "default"]), rng.choice([None, None, "", "sg-0123"])
 
 
 def gen_rule_case(rng):
     """One template-level case record for the EC2 kinds (fields CidrIp / CidrIpv6)."""
-    x = {"kind": rng.choice(EC2_KINDS), "via": rng.choice(["literal", "literal", "ref_default", "ref_extra", "sub_local"]),
+    x = {"kind": rng.choice(EC2_KINDS), "via": rng.choice(VIAS),
          "stage": rng.choice(["parse", "resolve"]), "pos": rng.randrange(2)}
     tags = []
     r = rng.random()
@@ -729,7 +742,7 @@ def gen_rule_case(rng):
             x["explicit_null"] = True
     if isinstance(x.get("cidr4"), int):
         x["via"] = "literal"
-    if x["via"] == "ref_extra" and rng.random() < 0.5:
+    if x["via"] in ("ref_extra", "select_list") and rng.random() < 0.5:
         x["shadowed_default"] = True
     if x["via"] != "literal":
         x["stage"] = "resolve"
@@ -741,7 +754,7 @@ def gen_rule_case(rng):
 
 
 def gen_rds_case(rng):
-    x = {"kind": rng.choice(RDS_KINDS), "via": rng.choice(["literal", "literal", "ref_default", "ref_extra", "sub_local"]),
+    x = {"kind": rng.choice(RDS_KINDS), "via": rng.choice(VIAS),
          "stage": rng.choice(["parse", "resolve"]), "pos": rng.randrange(2)}
     tags = []
     if rng.random() < 0.85:
